@@ -201,4 +201,69 @@ def c01(ctx):
     if not ctx.gv("tlc-transitions", "Trace_Table", ["table", "--mode", "replay"], inputs=trans):
         return
     n, ops = (150, 40) if q else (1500, 60)
-    ctx.gv("random-histories", "Trace_Table", ["table", "--mode", "hist", "--seed", str(seed()), "--n", str(n), "--ops", str(ops)])
+    if not ctx.gv("random-histories", "Trace_Table", ["table", "--mode", "hist", "--seed", str(seed()), "--n", str(n), "--ops", str(ops)]):
+        return
+    # directed witness of the known finding DelPrevSizeCut (range delete with prev_kv over > 4 MiB)
+    ctx.gv("big-value-deletes", "Trace_Table", ["table", "--mode", "bigscan", "--mix", "witness", "--seed", str(seed()), "--n", str(3 if q else 20)])
+
+
+@check("C02")
+def c02(ctx):
+    ctx.assumptions += TABLE_ASSUME
+    ctx.assumptions.append("atomic visibility is validated on real concurrent executions (one writer, three readers): each overlapped read must equal the answer of ONE content that existed between its invocation and its return")
+    q = ctx.quick
+    trans = ctx.design("MC_TableApply", "MC_TableApply_quick.cfg" if q else "MC_TableApply_thorough.cfg", sample=120 if q else 1500)
+    trans = [t for t in trans if '"TXN"' in t]
+    if not ctx.gv("tlc-txn-transitions", "Trace_Table", ["table", "--mode", "replay"], inputs=trans):
+        return
+    n, ops = (120, 40) if q else (1500, 60)
+    if not ctx.gv("random-txn-histories", "Trace_Table", ["table", "--mode", "hist", "--mix", "txn", "--seed", str(seed()), "--n", str(n), "--ops", str(ops)]):
+        return
+    n, ops = (6, 120) if q else (40, 200)
+    ctx.gv("concurrent-readers", "Trace_Table", ["table", "--mode", "conc", "--seed", str(seed()), "--n", str(n), "--ops", str(ops)])
+
+
+@check("C03")
+def c03(ctx):
+    ctx.assumptions += TABLE_ASSUME
+    ctx.assumptions.append("replicas are real fsm.FSM instances on separate in-memory file systems; snapshot transfer = PrepareSnapshot/SaveSnapshot/RecoverFromSnapshot between instances with independently chosen recovery types")
+    q = ctx.quick
+    logs = ctx.design("MC_Converge", "MC_Converge_quick.cfg" if q else "MC_Converge_thorough.cfg", sample=60 if q else 1500)
+    if not ctx.gv("tlc-logs", "Trace_Table", ["table", "--mode", "convlog", "--seed", str(seed())], inputs=logs):
+        return
+    n, ops = (120, 12) if q else (1500, 16)
+    ctx.gv("random-logs", "Trace_Table", ["table", "--mode", "converge", "--seed", str(seed()), "--n", str(n), "--ops", str(ops)])
+
+
+@check("C09")
+def c09(ctx):
+    ctx.assumptions += TABLE_ASSUME
+    q = ctx.quick
+    # reads on every content over 4-5 keys with size cuts enabled (MaxRange = 4) ...
+    ctx.design("MC_TableApply", "MC_TableReads_quick.cfg" if q else "MC_TableReads_thorough.cfg")
+    # ... and the contents reached by the full command alphabet, sampled for replay with reads
+    trans = ctx.design("MC_TableApply", "MC_TableApply_quick.cfg", sample=700 if q else 150)
+    if not ctx.gv("tlc-states-reads", "Trace_Table", ["table", "--mode", "replay", "--reads", "12"], inputs=trans):
+        return
+    n, ops = (100, 50) if q else (1200, 60)
+    # read-heavy random histories; every 5th history stores values of 0.7-2 MiB so that size cuts occur
+    if not ctx.gv("random-read-histories", "Trace_Table", ["table", "--mode", "hist", "--mix", "read", "--bigevery", "5", "--seed", str(seed()), "--n", str(n), "--ops", str(ops)]):
+        return
+    # pairs of 0.7-2 MiB: the ~4 MiB message cut falls on first / middle / last pair
+    if not ctx.gv("big-value-scans", "Trace_Table", ["table", "--mode", "bigscan", "--seed", str(seed()), "--n", str(10 if q else 80)]):
+        return
+    n, ops = (4, 100) if q else (30, 200)
+    ctx.gv("concurrent-readers", "Trace_Table", ["table", "--mode", "conc", "--seed", str(seed()), "--n", str(n), "--ops", str(ops)])
+
+
+@check("C12")
+def c12(ctx):
+    ctx.assumptions += TABLE_ASSUME
+    ctx.assumptions.append("byte layout of the encoding is not demanded; relations (round trip, injectivity, order, bookkeeping keys above all user keys) are checked on bytes produced by the real key.Encoder; isolation of bookkeeping keys is additionally observed behaviourally (extreme bounds, then index lookups) on the real FSM")
+    q = ctx.quick
+    ctx.design("MC_KeyEnc", "MC_KeyEnc.cfg")
+    if not ctx.gv("codec-pairs", "Trace_KeyEnc", ["keyenc", "--seed", str(seed()), "--n", str(12 if q else 120)]):
+        return
+    # long keys (1018..1024 bytes, 0xFF heavy), keys spelled like the bookkeeping keys, extreme bounds on the real FSM
+    n, ops = (40, 40) if q else (400, 60)
+    ctx.gv("long-key-histories", "Trace_Table", ["table", "--mode", "hist", "--class", "1", "--seed", str(seed()), "--n", str(n), "--ops", str(ops)])
